@@ -166,6 +166,10 @@ def run_cadence(job, ob):
     ob.extra["paths"] = len(outs)
     for pi_, o in enumerate(outs):
         if o.exc is not None:
+            from ..harness import exc_origin
+            if exc_origin(o.exc) == "harness":
+                ob.fail_harness(f"harness raised: {o.exc!r}")
+                continue
             ob.prove(f"no-exception[path{pi_}]", o.pc, False, cex=lambda mm, o=o: dict(kind="exc", exc=repr(o.exc)))
             continue
         r = o.value
